@@ -12,6 +12,7 @@ import (
 	"strings"
 	"sync"
 	"sync/atomic"
+	"testing/synctest"
 	"time"
 
 	"github.com/arm-doe/sts"
@@ -273,6 +274,10 @@ func (s *Sim) requestStop(n *SendNode, graceful bool) {
 	}
 	n.stopped = true
 	go func() { n.stop <- graceful }()
+	// The request is an event of its own: let the broker's stop goroutine set
+	// its flag and run into its next blocking point before anything else is
+	// released, otherwise it races with the action released in the same step.
+	synctest.Wait()
 }
 
 func copyTree(src, dst string, skip func(rel string) bool) error {
